@@ -134,7 +134,7 @@ def _case(rng: Rng, big):
 
 
 def gen_cases(rng: Rng, tier):
-    n = dict(quick=160, thorough=1200)[tier]
+    n = dict(quick=130, thorough=1200)[tier]
     for k in range(n):
         yield _case(rng, big=(tier == "thorough" and k % 4 == 0))
     # scripted update step (the REAL fit loop driven by a fake `_update_components`): every branch of the
